@@ -927,6 +927,52 @@ def make_cases(pid, tier, seed):
             c2["layout"] = lay
             extra.append(c2)
     out = out + extra
+    # keyword options again by POSITION (following NumPy's own signature; intervening parameters get
+    # their NumPy defaults): rules that parse *args / **kwargs themselves must see the same configuration
+    import inspect
+
+    nsmods = {"numpy": onp, "linalg": onp.linalg, "fft": onp.fft}
+    sigcache = {}
+    extra = []
+    for c in out:
+        if c["form"] != "function" or not c["kwargs"] or c["ns"] not in nsmods or c.get("dup") or c.get("layout") or c.get("joint"):
+            continue
+        key = (c["ns"], c["prim"])
+        if key not in sigcache:
+            try:
+                sigcache[key] = list(inspect.signature(getattr(nsmods[c["ns"]], c["prim"])).parameters.values())
+            except (TypeError, ValueError, AttributeError):
+                sigcache[key] = None
+        params = sigcache[key]
+        if not params:
+            continue
+        names = [p_.name for p_ in params]
+        if any(k not in names for k in c["kwargs"]) or any(p_.kind not in (p_.POSITIONAL_ONLY, p_.POSITIONAL_OR_KEYWORD) for p_ in params[: max(names.index(k) for k in c["kwargs"]) + 1]):
+            continue
+        last = max(names.index(k) for k in c["kwargs"])
+        if last < len(c["args"]):
+            continue
+        newargs = list(c["args"])
+        ok = True
+        for p_ in params[len(c["args"]) : last + 1]:
+            if p_.name in c["kwargs"]:
+                newargs.append(c["kwargs"][p_.name])
+            elif p_.default is inspect.Parameter.empty or type(p_.default).__name__ == "_NoValueType":
+                ok = False
+                break
+            else:
+                newargs.append(p_.default)
+        if not ok:
+            continue
+        c2 = dict(c)
+        c2["args"] = newargs
+        c2["kwargs"] = {}
+        c2["tags"] = list(c.get("tags") or []) + ["kw_by_position"]
+        extra.append(c2)
+    if mode in ("rev", "fwd", "cplx"):
+        out = out + extra
+    elif mode in ("pair", "struct", "order2"):
+        out = out + extra[::3]
     if mode == "cplx":
         # gauge-dependent outputs (eigenvector / singular-vector phases) are not functions of the input
         # alone for complex data: only the gauge-free selections are judged
